@@ -11,6 +11,10 @@ and `Infl` of step 5 feed step 7 and the `Irr` of step 6 is the irrigation appli
 
 What is quantified over: an arbitrary linearly ordered field, every `Fn`, profile, parameter
 record, state, day input and `CropDay`; each statement is about a successful call.
+One law of `Fn` is used: `PowSqLaw F` (`x ** 2 = x · x`, `Proofs/PowSq.lean`) — the SCS runoff is
+`(term ** 2) / (…)` in the Python (C `pow`), so its sign and its bound by the rain need the law;
+the sum `Runoff + Infl = P` does not (`rain_partition_sum`).  The law enters explicitly (`hF`), or
+as the field `sq` of `DayPre` / `CfgSurfOK`, or through `CfgOK.fn.powSq`.
 
 The property's own bound "effective curve number ≤ 100" appears as the premise
 `ScsRuns fm → 0 < out.cn ∧ out.cn ≤ 100`, where `out.cn` is the ghost "curve number the SCS
@@ -31,9 +35,11 @@ variable {α : Type} [Field α] [LinearOrder α] [IsStrictOrderedRing α]
 
 /-- SCS split: for a curve number in `(0, 100]` and non-negative rain, runoff lies between 0 and
 the rain, and runoff + infiltration = rain. -/
-theorem scs_runoff_within_rain (p cn : α) (hp : 0 ≤ p) (hcn : 0 < cn) (hcn' : cn ≤ 100) :
-    0 ≤ (scsSplit p cn).1 ∧ (scsSplit p cn).1 ≤ p ∧ (scsSplit p cn).1 + (scsSplit p cn).2 = p :=
-  scsSplit_bounds p cn hp hcn hcn'
+theorem scs_runoff_within_rain {F : Fn α} (hF : PowSqLaw F) (p cn : α) (hp : 0 ≤ p) (hcn : 0 < cn)
+    (hcn' : cn ≤ 100) :
+    0 ≤ (scsSplit F p cn).1 ∧ (scsSplit F p cn).1 ≤ p ∧
+      (scsSplit F p cn).1 + (scsSplit F p cn).2 = p :=
+  scsSplit_bounds hF p cn hp hcn hcn'
 
 /-- `rainfall_partition` returns `Runoff + Infl = P` in both of its branches — no premise. -/
 theorem rain_partition_sum {F : Fn α} {p : α} {cells : List (Cell α)} {daySub : Nat}
@@ -44,13 +50,13 @@ theorem rain_partition_sum {F : Fn α} {p : α} {cells : List (Cell α)} {daySub
 
 /-- … and with non-negative rain and (where the split runs) an effective curve number in
 `(0,100]`, both parts lie between 0 and the rain. -/
-theorem rain_partition_bounds {F : Fn α} {p : α} {cells : List (Cell α)} {daySub : Nat}
+theorem rain_partition_bounds {F : Fn α} (hF : PowSqLaw F) {p : α} {cells : List (Cell α)} {daySub : Nat}
     {srInhb bunds : Bool} {zBund pct soilCN zCN : α} {adjCN : Bool} {r : RainOut α}
     (h : rainPartition F p cells daySub srInhb bunds zBund pct soilCN adjCN zCN = some r)
     (hp : 0 ≤ p)
     (hcn : (srInhb = false ∧ (bunds = false ∨ zBund < 0.001)) → 0 < r.cn ∧ r.cn ≤ 100) :
     0 ≤ r.runoff ∧ r.runoff ≤ p ∧ 0 ≤ r.infl ∧ r.infl ≤ p :=
-  rainPartition_bounds h hp hcn
+  rainPartition_bounds hF h hp hcn
 
 section infiltration
 variable {F : Fn α} {cells : List (Cell α)} {pond infl irr appEff zBund dp0 ro0 : α}
@@ -105,10 +111,11 @@ variable {F : Fn α} {W : WaterParams α} {fm : FieldMngt α} {C : CropDay α}
 /-- **Rainfall plus the efficiency-adjusted irrigation application equals reported infiltration
 plus reported runoff** — for non-negative rain and an effective curve number in `(0,100]` (needed
 so that the infiltration part of the SCS split is not negative, which `infiltration` would clamp). -/
-theorem day_partition (h : waterDay F W fm C cells S D = .ok out) (hrain : 0 ≤ D.rain)
+theorem day_partition (hF : PowSqLaw F) (h : waterDay F W fm C cells S D = .ok out)
+    (hrain : 0 ≤ D.rain)
     (hcn : ScsRuns fm → 0 < out.cn ∧ out.cn ≤ 100) :
     out.infl + out.runoff = D.rain + irrApplied W D out :=
-  waterDay_partition h hrain hcn
+  waterDay_partition hF h hrain hcn
 
 /-- Reported runoff is never negative and never exceeds the day's rain and applied irrigation
 plus the water ponded at the start of the day (premises: `DayPre`, non-negative rain, curve
@@ -146,7 +153,7 @@ example : ∃ out, waterDay DayExample.Fq DayExample.Wq DayExample.fmq DayExampl
     out.infl + out.runoff = 29 := by
   obtain ⟨out, h, _, _, hinfl, hro, _, _, hirr, hcn, _⟩ := DayExample.runs
   refine ⟨out, h, hro, hinfl, ?_⟩
-  have := day_partition h (by norm_num [DayExample.Dq]) (fun _ => by rw [hcn]; norm_num)
+  have := day_partition DayExample.Fq_sq h (by norm_num [DayExample.Dq]) (fun _ => by rw [hcn]; norm_num)
   rw [this]
   simp only [irrApplied, hirr, DayExample.Dq, DayExample.Wq]
   norm_num
